@@ -45,5 +45,10 @@ def main():
     if len(vals) != len(exp) or any(abs(a - b) > 1e-12 * (1 + abs(b)) for a, b in zip(vals, exp)):
         print("selftest: transcendental approximations disagree", vals, exp)
         return 1
+    import translate
+    tok, tlog = translate.run()
+    if not tok:
+        print("selftest: translator / GenAgree failed\n" + tlog)
+        return 1
     print("selftest ok")
     return 0
